@@ -69,10 +69,17 @@ func TestVerifHarness(t *testing.T) {
 			s, n int
 			o    string
 		}
-		cases := []tc{{3, 800, "out"}, {5, 20000, filepath.Join(tmp, "abs", "nested")}, {2, 8, "a/b/c"}}
+		cases := []tc{{3, 800, "out"}, {5, 20000, filepath.Join(tmp, "abs", "nested")}, {2, 8, "a/b/c"}, {3, 160, "reused"}}
 		for _, c := range cases {
 			work := filepath.Join(tmp, fmt.Sprintf("w%d", resp.Cases["output-dir"]))
 			os.MkdirAll(work, 0755)
+			if c.o == "reused" {
+				// the output directory already holds longer sample files of an earlier run: they must be replaced, not overlaid
+				os.MkdirAll(filepath.Join(work, c.o), 0755)
+				for i := 0; i < c.s; i++ {
+					ioutil.WriteFile(filepath.Join(work, c.o, fmt.Sprintf("random%d.bin", i)), make([]byte, 1000), 0644)
+				}
+			}
 			cmd := exec.Command(bin, "-s", fmt.Sprint(c.s), "-n", fmt.Sprint(c.n), "-o", c.o)
 			cmd.Dir = work
 			out, runErr := cmd.CombinedOutput()
